@@ -335,6 +335,10 @@ func Explore(prog *Program, pool *Pool, cfg RunConfig) (*RunResult, error) {
 	}
 	startQ := make([]smt.Stats, len(workers))
 	for i, w := range workers {
+		// fresh solver process per instance: accumulated definitions make
+		// model construction slow
+		w.solver.Restart()
+		w.pathsSinceRestart = 0
 		startQ[i] = w.solver.Stats
 	}
 	for _, w := range workers {
@@ -357,6 +361,11 @@ func Explore(prog *Program, pool *Pool, cfg RunConfig) (*RunResult, error) {
 				mu.Unlock()
 
 				var pr pathResult
+				in.pathsSinceRestart++
+				if in.pathsSinceRestart > 3000 {
+					in.solver.Restart()
+					in.pathsSinceRestart = 0
+				}
 				in.runPath(h, &cfg, &item, &pr)
 
 				mu.Lock()
